@@ -11,7 +11,13 @@ P = {
             "all orderings of (own, peer) predictabilities from 8 boundary values for the forwarding rule, unknown peers, "
             "direct delivery, event sequences with peers appearing / vectors arriving / ageing / data bundles, the summary "
             "vectors handed to the mock CLAs, the aliasing probe; the lock-discipline probe (is dataMutex held at every observable map "
-            "access: lookups of SenderForBundle, writes of encounter / agePred / transitivity); concurrent stress in a child process. "
+            "access: lookups and the predictability comparison of SenderForBundle, writes of encounter / agePred / transitivity, the "
+            "look-ups of the metadata path - NotifyNewBundle's look-up of the sender in peerPredictabilities before it stores the "
+            "vector, for a new and for a known peer, and transitivity's look-up); concurrent stress in child processes: (1) peer "
+            "appeared + vector received / ageing / pending check, (2) summary vectors of thousands of peers delivered by 8 (thorough "
+            "12) goroutines at once through NotifyNewBundle (one of them through the Core's whole reception path) next to peers "
+            "appearing, ageing, pending check, sendMetadata and state reads - fixed amount of work, 4 (8) children; the child must "
+            "survive and every predictability it holds must be in [0,1]. "
             "distinct = distinct case bodies",
     "assumptions": ["configuration constants and received predictabilities are finite binary64 values in [0,1] (C19_range, C19_monotone)",
                     "amd64 float64 semantics without FMA contraction (GOAMD64=v1)"],
@@ -21,7 +27,8 @@ P = {
     "axioms_ok": [],
     "level_text": "Range / monotonicity theorems over Flocq binary64 (round-to-nearest-even, the code's evaluation order) for all "
                   "event sequences; forwarding-gate theorem for the algorithm's selection incl. the Core's direct delivery; "
-                  "lock-discipline theorem for all interleavings of the map accesses of the repaired code. The model is run "
+                  "lock-discipline theorem for all interleavings of the map accesses (own predictabilities, peerPredictabilities, block "
+                  "copies) of the repaired code incl. several concurrent vector imports. The model is run "
                   "bit-for-bit against the real Prophet / Core.",
     "level_note": "partial: the Go runtime's fatal error itself is not modelled, only the overlap of a map write with a read span "
                   "of the same map object that causes it; the received vector stored in peerPredictabilities shares the map of the "
